@@ -103,7 +103,23 @@ Msg4Fail ==
   /\ phase' = 9
   /\ UNCHANGED <<vI, vR, stR, installed>>
 
-Next == Msg1 \/ Msg2 \/ Msg3 \/ Msg4 \/ Msg4Fail
+\* Impersonation of the responder: the attacker answers message 1 ITSELF (the real responder never takes part), with its own nonce, KE value and SPI
+\* and a choice drawn from the offer - so it owns the keys of the IKE_SA legitimately - and then claims the responder's identity with an AUTH payload it
+\* has to make up: it does not hold the responder's credential.  Whatever it sends (ForgeMenu), the initiator must end in failure with nothing installed.
+ForgeMenu == {"empty", "random", "pskempty", "pskid", "replay", "rsagarbage", "copyi", "noauth"}
+ImpMsg2 ==
+  /\ phase = 1
+  /\ vI' = [f \in Fields |-> IF f \in ResFields THEN (IF f = "chosen" THEN Honest(f) ELSE Evil(f)) ELSE vI[f]]
+  /\ stI' = "AUTH_REQ_SENT" /\ phase' = 6
+  /\ last' = [a |-> "ImpMsg2"]
+  /\ UNCHANGED <<vR, stR, installed>>
+ImpMsg4 ==
+  /\ phase = 6
+  /\ \E f \in ForgeMenu : last' = [a |-> "ImpMsg4", forge |-> f]
+  /\ stI' = "DELETED" /\ phase' = 9
+  /\ UNCHANGED <<vI, vR, stR, installed>>
+
+Next == Msg1 \/ Msg2 \/ Msg3 \/ Msg4 \/ Msg4Fail \/ ImpMsg2 \/ ImpMsg4
 Spec == Init /\ [][Next]_vars
 
 \* ---------------------------------------------------------------------------------------------- properties
